@@ -9,7 +9,7 @@
        MAX_LENGTH_CHAIN + 1.
    The same for Model/Loader.v ([load]). *)
 From LV Require Import Base.Bytes Base.Sx Model.Obj Model.Writer Model.Parser Model.Xref Model.ObjStm Model.Utf
-  Model.Loader Model.LoaderExt Gen.Lex Gen.SaveFmt Gen.Consts Proofs.SafeContentProofs Proofs.SafeParserFuel.
+  Model.Loader Model.LoaderExt Model.LoaderEnc Gen.Lex Gen.SaveFmt Gen.Consts Proofs.SafeContentProofs Proofs.SafeParserFuel.
 From Coq Require Import Lia.
 Local Open Scope N_scope.
 
@@ -401,3 +401,79 @@ Section Ext.
     destruct (read_entries_x _ _ buf (x_entries x) (x_entries x) _); try (split; discriminate); congruence.
   Qed.
 End Ext.
+
+(* ---------------- the Encrypt branch (Model/LoaderEnc.v) ----------------
+   Reader::read on EVERY file, a trailer with Encrypt included: the front (header .. Prev loop .. size), the objects of
+   an encrypted file (read_entries_enc: no object stream is opened), the zero-length pass, then the decrypt attempt,
+   which is the parameter [after].  Whatever answers the decrypt attempt can give, the reader adds neither a panic nor
+   an exhausted fuel: [load_encx] answers LPanic / LOut (through [ret]) for NO byte string, and otherwise one of the
+   reader's own results or what [after] answers.  So for every [after] that is total (answers neither) the whole
+   load is. *)
+Section Enc.
+  Variable decompress : dict -> bytes -> option (dict * bytes).
+  Variable can_decompress : dict -> bool.
+
+  Lemma load_front_x_ok buf0 : stok (load_front_x decompress can_decompress buf0).
+  Proof.
+    unfold load_front_x. set (buf := from (pdf_offset buf0) buf0).
+    destruct (header buf); [|split; discriminate].
+    destruct (get_xref_start buf) as [xs|]; [|split; discriminate].
+    destruct (xref_and_trailer_x_ok decompress can_decompress buf xs) as [X1 X2].
+    destruct (xref_and_trailer_x decompress can_decompress buf xs) as [[x0 t0]|e| | |]; try (split; discriminate); try congruence.
+    destruct (prev_loop_x_ok decompress can_decompress buf (S (S (length buf))) x0 (dict_swap_remove t0 K_Prev) (dict_get t0 K_Prev) []
+                (NoDup_nil _) (incl_nil_l _) ltac:(cbn [length]; lia)) as [P1 P2].
+    destruct (prev_loop_x _ _ _ buf x0 _ _ []) as [[x t]|e| | |]; try (split; discriminate); try congruence.
+    destruct (u32_max <=? xref_max_id x); split; discriminate.
+  Qed.
+
+  Lemma read_entries_enc_ok buf x : forall es st, stok (read_entries_enc buf x es st).
+  Proof.
+    induction es as [|[k e] es IH]; intros st; cbn [read_entries_enc]; [split; discriminate|].
+    destruct e; try apply IH.
+    destruct (_ <? offset); [apply IH|].
+    destruct (indirect_x_ok buf x (from offset buf) None) as [I1 I2].
+    destruct (indirect_x buf x (from offset buf) None) as [id o pos| | |]; try congruence; try apply IH.
+    destruct o; apply IH.
+  Qed.
+
+  Lemma plain_tail_safe f :
+    plain_tail decompress can_decompress f <> LPanic /\ plain_tail decompress can_decompress f <> LOut.
+  Proof.
+    unfold plain_tail.
+    destruct (read_entries_x_ok decompress can_decompress (f_buf f) (x_entries (f_xref f)) (x_entries (f_xref f)) rstate0) as [R1 R2].
+    destruct (read_entries_x _ _ (f_buf f) (x_entries (f_xref f)) (x_entries (f_xref f)) rstate0);
+      try (split; discriminate); congruence.
+  Qed.
+
+  (* what load_encx answers: one of the reader's own results that is neither a panic nor out-of-fuel, or what the
+     decrypt attempt answers for some document *)
+  Theorem load_encx_answers (R : Type) (ret : lres -> R) (after : xmap -> doc -> xtype -> R) buf0 :
+    (exists r, load_encx decompress can_decompress R ret after buf0 = ret r /\ r <> LPanic /\ r <> LOut) \/
+    (exists x d t, load_encx decompress can_decompress R ret after buf0 = after x d t).
+  Proof.
+    unfold load_encx. destruct (load_front_x_ok buf0) as [F1 F2].
+    destruct (load_front_x decompress can_decompress buf0) as [f|e| | |]; try congruence.
+    - destruct (dict_has (f_trailer f) K_Encrypt).
+      + unfold enc_tail.
+        destruct (read_entries_enc_ok (f_buf f) (x_entries (f_xref f)) (x_entries (f_xref f)) rstate0) as [R1 R2].
+        destruct (read_entries_enc (f_buf f) (x_entries (f_xref f)) (x_entries (f_xref f)) rstate0) as [st|e| | |]; try congruence.
+        * right. eexists _, _, _. reflexivity.
+        * left. exists (LErr e). split; [reflexivity|]. split; discriminate.
+        * left. exists LUnmodelled. split; [reflexivity|]. split; discriminate.
+      + left. exists (plain_tail decompress can_decompress f). split; [reflexivity | apply plain_tail_safe].
+    - left. exists (LErr e). split; [reflexivity|]. split; discriminate.
+    - left. exists LUnmodelled. split; [reflexivity|]. split; discriminate.
+  Qed.
+
+  (* Reader::read, every file: neither a panic nor an exhausted fuel, for every total decrypt attempt *)
+  Theorem load_enc_safe (after : doc -> xtype -> lres) :
+    (forall d t, after d t <> LPanic /\ after d t <> LOut) ->
+    forall buf0, load_enc decompress can_decompress after buf0 <> LPanic /\
+                 load_enc decompress can_decompress after buf0 <> LOut.
+  Proof.
+    intros Ha buf0. unfold load_enc.
+    destruct (load_encx_answers lres (fun r => r) (fun _ => after) buf0) as [[r [-> [H1 H2]]]|[x [d [t ->]]]].
+    - split; assumption.
+    - apply Ha.
+  Qed.
+End Enc.
